@@ -182,8 +182,12 @@ def rule_shape(ctx) -> RuleResult:
     cpg = p.func("Workspace.copy_property_groups")
     # the remapping: the list comprehension whose elements are looked up in the uid map (the function's last parameter)
     dmap = cpg.params[-1]
-    comps = [a for a in ast.walk(cpg.node) if isinstance(a, ast.Assign) and isinstance(a.value, ast.ListComp)
-             and isinstance(a.value.elt, ast.Subscript) and unparse(a.value.elt.value) == dmap]
+    # ... i.e. the local that becomes the "properties" entry of the new group's keyword arguments
+    prop_locals = {unparse(v) for d in ast.walk(cpg.node) if isinstance(d, ast.Dict) for k, v in zip(d.keys, d.values)
+                   if isinstance(k, ast.Constant) and k.value == "properties" and isinstance(v, ast.Name)}
+    prop_locals |= {unparse(k.value) for k in ast.walk(cpg.node) if isinstance(k, ast.keyword) and k.arg == "properties" and isinstance(k.value, ast.Name)}
+    comps = [a for a in ast.walk(cpg.node) if isinstance(a, ast.Assign) and isinstance(a.value, ast.ListComp) and unparse(a.targets[0]) in prop_locals
+             and any(isinstance(x, ast.Name) and x.id == dmap for x in ast.walk(a.value))]
     if not comps:
         raise AnalysisError("Workspace.copy_property_groups: remapping comprehension not found")
     for a in comps:
